@@ -266,8 +266,16 @@ def _check_aborted(part: Part, tier, seed):
         base = _state()
         probes = ["probe(False)", "chatter()"]
         reference = {}
+        from .c32 import execute_terminating
         for pr in probes:
-            res = fast.execute(_tc(pr))
+            res = None
+            for _attempt in range(5):          # (a time-out of a probe means: machine overloaded, wait and retry)
+                res = execute_terminating(fast, lambda pr=pr: _tc(pr))
+                if res is not None and not res.timeout:
+                    break
+                __import__("time").sleep(3)
+            if res is None:
+                return                  # persistently overloaded: no verdict from this part in this run
             reference[pr] = (res.timeout, sorted((k, type(v).__name__, str(v)) for k, v in res.exceptions.items()))
         whiches = ["hush", "reseed", "chatter", "replace_stdout", "burn", "unhush"]
         for which in whiches:
@@ -285,7 +293,10 @@ def _check_aborted(part: Part, tier, seed):
                                    {"test_case": f"then_spin({which!r}) (changes the state, then loops until the executor gives up)",
                                     "changed": {k: (base[k], now[k]) for k in bad}}, target=f"{EX}:TestCaseExecutor.execute")
                     _repair(base)
-                res2 = fast.execute(_tc(pr))
+                from .c32 import execute_terminating
+                res2 = execute_terminating(fast, lambda: _tc(pr))
+                if res2 is None:
+                    continue            # overloaded machine: the probe keeps timing out, no verdict for this scenario
                 sig = (res2.timeout, sorted((k, type(v).__name__, str(v)) for k, v in res2.exceptions.items()))
                 if sig != reference[pr]:
                     part.violation("the result of a test case does not depend on which test cases ran before it",
